@@ -95,14 +95,15 @@ Definition dec_directive (s : sexp) : option (name * list (name * sty)) :=
 Definition dec_schema (s : sexp) : option schema :=
   match tagged "schema" s with
   | Some l =>
-      match field "types" l, field1 "query" l, field1 "mutation" l, field1 "subscription" l, field "directives" l with
-      | Some ts, Some (SStr q), Some m, Some sub, Some ds =>
-          match map_opt dec_type ts, as_option as_bytes m, as_option as_bytes sub, map_opt dec_directive ds with
-          | Some ts', Some m', Some sub', Some ds' =>
-              Some {| types := ts'; query := q; mutation := m'; subscription := sub'; directives := ds' |}
-          | _, _, _, _ => None
+      match field "types" l, field1 "query" l, field1 "mutation" l, field1 "subscription" l, field "directives" l,
+            field "additional" l with
+      | Some ts, Some (SStr q), Some m, Some sub, Some ds, Some ad =>
+          match map_opt dec_type ts, as_option as_bytes m, as_option as_bytes sub, map_opt dec_directive ds, dec_names ad with
+          | Some ts', Some m', Some sub', Some ds', Some ad' =>
+              Some {| types := ts'; query := q; mutation := m'; subscription := sub'; directives := ds'; additional := ad' |}
+          | _, _, _, _, _ => None
           end
-      | _, _, _, _, _ => None
+      | _, _, _, _, _, _ => None
       end
   | None => None
   end.
@@ -144,7 +145,8 @@ Definition opt_sexp {A} (f : A -> sexp) (o : option A) : sexp :=
 Definition enc_schema (S : schema) : sexp :=
   tag "schema" [tag "types" (map enc_type (types S)); tag "query" [SStr (query S)];
                 tag "mutation" [opt_sexp SStr (mutation S)]; tag "subscription" [opt_sexp SStr (subscription S)];
-                tag "directives" (map (fun d => tag "d" [SStr (fst d); enc_args "args" (snd d)]) (directives S))].
+                tag "directives" (map (fun d => tag "d" [SStr (fst d); enc_args "args" (snd d)]) (directives S));
+                tag "additional" (map SStr (additional S))].
 
 (** equality of s-expressions in which a list headed by the symbol [set] is compared as a set *)
 Fixpoint sexp_sim (a b : sexp) : bool :=
@@ -433,6 +435,40 @@ Fixpoint dedup (l : list string) : list string :=
 Definition case_kind (l : list sexp) : string :=
   match field1 "kind" l with Some (SSym k) => k | _ => "unknown" end.
 
+(** the reduced definition as schema.New itself registers it (side c), present when that differs
+    from the reduced registry: (physical (names ..) (registered ..) (a OBS INTRO) (c OBS INTRO)) *)
+Definition same_names (a b : list name) : bool :=
+  forallb (fun x => mem x b) a && forallb (fun x => mem x a) b.
+
+Definition check_physical (S : schema) (F G : features) (l : list sexp) : option sexp :=
+  let P := erase_physical S F in
+  match field "physical" l with
+  | None =>
+      if excl_orphaned_type S F then Some (v_mismatch "physical-erasure-not-observed" (map SStr (orphaned S F)))
+      else None
+  | Some pl =>
+      match field "names" pl, field "registered" pl, field "a" pl, field "c" pl with
+      | Some ns, Some rg, Some la, Some lc =>
+          match dec_names ns, dec_names rg, dec_obs la, dec_obs lc with
+          | Some names, Some reg, Some a, Some c =>
+              if negb (same_names reg (map fst (types P))) then
+                Some (v_mismatch "physical-erasure-registry" (map SStr (map fst (types P))))
+              else
+                match o_rest a, o_rest c with
+                | [xa], [xc] =>
+                    if negb (sexp_sim (model_intro fixed P G names) xc) then
+                      Some (v_mismatch "introspection-view-physically-erased-schema" [])
+                    else if sexp_sim xa xc && sexp_eqb (o_verdict a) (o_verdict c) then None
+                    else Some (v_oracle_fail (if excl_orphaned_type S F then "orphaned-type-stays-visible"
+                                              else intro_key xa xc) (map SStr (orphaned S F)))
+                | _, _ => Some (v_bad "physical-observation")
+                end
+          | _, _, _, _ => Some (v_bad "physical-decode")
+          end
+      | _, _, _, _ => Some (v_bad "physical-fields")
+      end
+  end.
+
 Definition check_case (S : schema) (F G : features) (accepted : bool) (l : list sexp) (sd : sexp) : sexp :=
   if negb (Bool.eqb (schema_ok S) accepted) then
     v_mismatch "schema-ok" [of_bool (schema_ok S); of_bool accepted]
@@ -458,12 +494,16 @@ Definition check_case (S : schema) (F G : features) (accepted : bool) (l : list 
                       match first_some (compare_req S E F G) rs' with
                       | Some v => v
                       | None =>
+                        match check_physical S F G l with
+                        | Some v => v
+                        | None =>
                           let cl := dedup (flat_map (req_classes S F G) rs') in
                           let deleted := negb (sexp_eqb (enc_schema E) sd) in
                           let matters := existsb (fun x => String.eqb x "introspect-gating-matters" || String.eqb x "chain-gating-matters") cl in
                           v_ok (case_kind l :: "schema-accepted" ::
                                 (if deleted then ["something-erased"] else ["nothing-erased"]) ++
                                 cl ++ (if deleted && matters then ["nontrivial"] else []))%list
+                        end
                       end
                   end
               end
